@@ -31,7 +31,8 @@ impl TreeEngine
         o.over_budget = out.over_budget;
         if !out.over_budget
         {
-            o.violations = rep.violations.iter().filter(|v| v.prop == self.prop).map(|v| format!("@{} {}", v.pos, v.msg)).collect();
+            o.violations = rep.violations.iter().filter(|v| self.prop == "*" || v.prop == self.prop)
+                .map(|v| if self.prop == "*" { format!("{} @{} {}", v.prop, v.pos, v.msg) } else { format!("@{} {}", v.pos, v.msg) }).collect();
             o.internal = rep.internal.clone();
         }
         let prefix = format!("{}:", self.prop);
@@ -78,7 +79,8 @@ impl Engine for TreeEngine
         let mut fails = |p: &Program| -> bool {
             let out = run_program(p, STEP_BUDGET);
             if out.over_budget { return false; }
-            Checker::check(&out.trace).violates(prop)
+            let rep = Checker::check(&out.trace);
+            if prop == "*" { !rep.violations.is_empty() } else { rep.violates(prop) }
         };
         let small = shrink(&program, &mut fails, 20_000);
         serde_json::to_value(&small).unwrap()
